@@ -1194,8 +1194,9 @@ def fuse_linear_task_spec(dsk, keys):
         else:
             # Renaming the keys is necessary to preserve the rootish detection for now
             renamed_key = default_fused_keys_renamer([tsk.key for tsk in linear_chain])
-            if renamed_key != top_key and renamed_key in dsk:
-                # the name is already taken by another key of the graph
+            if renamed_key != top_key and (renamed_key in dsk or renamed_key in result):
+                # the name is already taken by another key of the graph or by
+                # another fused chain
                 renamed_key = top_key
             result[renamed_key] = Task.fuse(*linear_chain, key=renamed_key)
             if renamed_key != top_key:
